@@ -1069,123 +1069,151 @@ def run_bigbatch(case, stats, env=None):
 # ------------------------------------------------------------------------------------------------
 # work units, sharding
 
-def _tasks(tier):
-    """(kind, variant name) work units, most expensive first; distributed round-robin over the shards"""
+def enum_units(variant, tier, collapse):
+    """(pool index, depth, nparts) of the bounded-exhaustive part of one variant; heavy enumerations are split
+    by the first operation of the sequence so that they spread over the worker processes"""
+    fam = variant['family']
+    nparts = {'compact-v1': 6, 'geopackage-level': 6, 'geopackage': 3, 'sqlite-level': 3, 'mbtiles': 2,
+              'compact-v2': 2}.get(fam, 2 if variant.get('link') else 1)
+    units = [(pi, 3, nparts) for pi in range(len(enum_pools(variant, tier, collapse)))]
+    if tier == 'thorough' and fam.startswith('file') and not variant.get('link') and not variant.get('dims'):
+        units.append((0, 4, 15))
+    return units
+
+
+def selected_variants():
+    """all variants; VERIF_C05_ONLY=<name>[,<name>...] restricts a run to some variants (development aid for
+    quick sensitivity runs on a busy machine - such a run is marked `restricted_to` and never `exhaustive`)"""
+    only = [n for n in os.environ.get('VERIF_C05_ONLY', '').split(',') if n]
+    if not only:
+        return VARIANTS
+    return [v for v in VARIANTS if v['name'] in only or v['family'] in only]
+
+
+def _tasks(tier, exclude):
+    """work units, most expensive first; every unit is one job of the process pool"""
     tasks = []
-    for v in VARIANTS:
-        tasks.append(('machine', v['name']))
-        tasks.append(('enum', v['name']))
+    for v in selected_variants():
+        collapse = bool(DIM_SIGS.get(v['family']) in exclude and v.get('dims'))
+        for pi, depth, nparts in enum_units(v, tier, collapse):
+            for part in range(nparts):
+                tasks.append(('enum', v['name'], pi, depth, part, nparts))
+        nm = 1 if tier == 'quick' else 4
+        for k in range(nm):
+            tasks.append(('machine', v['name'], k, nm))
         tasks.append(('batch', v['name']))
     cost = {'enum': 0, 'machine': 1, 'batch': 2}
-    heavy = lambda t: (cost[t[0]], 0 if VARIANT_BY_NAME[t[1]].get('link') else 1,
-                       0 if VARIANT_BY_NAME[t[1]]['family'].startswith('geopackage') else 1, t[1])
-    return sorted(tasks, key=heavy)
+    return sorted(tasks, key=lambda t: (cost[t[0]], t[1:]))
 
 
-def run_enum(variant, env, stats, tier, exclude):
+def run_enum(variant, env, stats, tier, exclude, pool_index=0, depth=3, part=0, nparts=1):
     collapse = bool(DIM_SIGS.get(variant['family']) in exclude and variant.get('dims'))
-    depth = 3
+    addrs = enum_pools(variant, tier, collapse)[pool_index]
+    alphabet = enum_alphabet(variant, addrs)
+    local = core.Stats()
+    nontrivial = 0
     total = 0
-    for addrs in enum_pools(variant, tier, collapse):
-        alphabet = enum_alphabet(variant, addrs)
-        local = core.Stats()
-        nontrivial = 0
-        for seq in itertools.product(range(len(alphabet)), repeat=depth):
-            ex = Executor(env, addrs, local, exclude=exclude)
-            v = None
-            try:
-                for pos, k in enumerate(seq):
-                    v = ex.apply(concretise(alphabet[k], (pos + 1) * 100 + k))
-                    if v is not None:
-                        break
-            finally:
-                ex.close()
-            total += 1
-            if ex.features:
-                nontrivial += 1
-            for f in ex.features:
-                stats.classes['enum-nt:' + f] += 1
-            if ex.excluded_l0:
-                stats.excluded['level-0 bulk load on %s (open finding %s)' % (
-                    variant['family'], LEVEL0_SIGS[variant['family']])] += ex.excluded_l0
-            if v is not None:
-                stats.violations.append(v)
-                stats.extra['exhaustive_aborted'] = stats.extra.get('exhaustive_aborted', 0) + 1
-                return False
-        stats.evaluations += len(alphabet) ** depth
-        stats.notes.update(local.notes)
-        stats.extra['exhaustive_sequences'] = stats.extra.get('exhaustive_sequences', 0) + len(alphabet) ** depth
-        stats.extra['exhaustive_nontrivial_sequences'] = stats.extra.get('exhaustive_nontrivial_sequences', 0) + nontrivial
-        stats.nontrivial.add(core.case_hash(('enum', variant['name'], addrs)))
-        stats.classes['enum-pool-completed'] += 1
-        if collapse:
-            stats.excluded['%s: dimension values collapsed to one per history (open finding %s)' % (
-                variant['family'], DIM_SIGS[variant['family']])] += len(alphabet) ** depth
+    for seq in itertools.product(range(len(alphabet)), repeat=depth):
+        if seq[0] % nparts != part:
+            continue
+        ex = Executor(env, addrs, local, exclude=exclude)
+        v = None
+        try:
+            for pos, k in enumerate(seq):
+                v = ex.apply(concretise(alphabet[k], (pos + 1) * 100 + k))
+                if v is not None:
+                    break
+        finally:
+            ex.close()
+        total += 1
+        if ex.features:
+            nontrivial += 1
+        for f in ex.features:
+            stats.classes['enum-nt:' + f] += 1
+        if ex.excluded_l0:
+            stats.excluded['level-0 bulk load on %s (open finding %s)' % (
+                variant['family'], LEVEL0_SIGS[variant['family']])] += ex.excluded_l0
+        if v is not None:
+            stats.violations.append(v)
+            stats.evaluations += total
+            stats.extra['exhaustive_aborted'] = stats.extra.get('exhaustive_aborted', 0) + 1
+            return False
+    stats.evaluations += total
+    stats.notes.update(local.notes)
+    stats.extra['exhaustive_sequences'] = stats.extra.get('exhaustive_sequences', 0) + total
+    stats.extra['exhaustive_nontrivial_sequences'] = stats.extra.get('exhaustive_nontrivial_sequences', 0) + nontrivial
+    stats.nontrivial.add(core.case_hash(('enum', variant['name'], addrs, depth, part, nparts)))
+    stats.classes['enum-unit-completed'] += 1
+    stats.classes['enum-depth-%d-sequences' % depth] += total
+    if collapse:
+        stats.excluded['%s: dimension values collapsed to one per history (open finding %s)' % (
+            variant['family'], DIM_SIGS[variant['family']])] += total
     return True
 
 
-MACHINE_EXAMPLES = {'quick': 60, 'thorough': 1500}
+MACHINE_EXAMPLES = {'quick': 120, 'thorough': 1500}    # per machine work unit (thorough: 4 units per variant)
+MACHINE_STEPS = {'quick': 30, 'thorough': 40}
 BATCH_EXAMPLES = {'quick': (8, 3), 'thorough': (150, 40)}   # (sqlite families, others)
 
 
 def work_shard(shard, nshards, seed, tier):
     stats = core.Stats()
     exclude = frozenset(open_sigs())
-    tasks = _tasks(tier)
-    envs = {}
+    task = _tasks(tier, exclude)[shard]
+    kind, vname = task[0], task[1]
+    variant = VARIANT_BY_NAME[vname]
+    tseed = core.derive_seed(seed, *task)
+    link_value = None
+    if variant.get('link') == 'symlink' and kind == 'machine' and tseed % 2:
+        link_value = True   # `link_single_color_images: true` is the documented spelling of symlink
+    env = Env(variant, link_value)
     try:
-        for ti, (kind, vname) in enumerate(tasks):
-            if ti % nshards != shard:
-                continue
-            variant = VARIANT_BY_NAME[vname]
-            tseed = core.derive_seed(seed, kind, vname)
-            link_value = None
-            if variant.get('link') == 'symlink' and kind == 'machine' and tseed % 2:
-                link_value = True   # `link_single_color_images: true` is the documented spelling of symlink
-            env = envs.get((vname, link_value))
-            if env is None:
-                env = envs[(vname, link_value)] = Env(variant, link_value)
-            if kind == 'machine':
-                core.run_machine(make_machine(variant, env, exclude, link_value), stats,
-                                 max_examples=MACHINE_EXAMPLES[tier], seed=tseed, step_count=30)
-            elif kind == 'enum':
-                run_enum(variant, env, stats, tier, exclude)
-            else:
-                many, few = BATCH_EXAMPLES[tier]
-                sq = variant['family'] in SQLITE_FAMILIES
-                sizes = BATCH_SIZES if sq or tier == 'thorough' else [2, 127, 129, 300, 334]
-                core.hyp_search(batch_cases(variant, sizes),
-                                lambda case, st_, env=env: run_bigbatch(case, st_, env),
-                                stats, max_examples=many if sq else few, seed=tseed)
+        if kind == 'machine':
+            core.run_machine(make_machine(variant, env, exclude, link_value), stats,
+                             max_examples=MACHINE_EXAMPLES[tier], seed=tseed, step_count=MACHINE_STEPS[tier])
+        elif kind == 'enum':
+            run_enum(variant, env, stats, tier, exclude, *task[2:])
+        else:
+            many, few = BATCH_EXAMPLES[tier]
+            sq = variant['family'] in SQLITE_FAMILIES
+            sizes = BATCH_SIZES if sq or tier == 'thorough' else [2, 127, 129, 300, 334]
+            core.hyp_search(batch_cases(variant, sizes),
+                            lambda case, st_: run_bigbatch(case, st_, env),
+                            stats, max_examples=many if sq else few, seed=tseed)
     finally:
-        for env in envs.values():
-            env.close()
+        env.close()
     return stats
 
 
 def run(tier, seed, stats):
     import yaml  # noqa: F401  (imported before forking so that the workers inherit the loaded modules)
     import mapproxy.config.loader  # noqa: F401
-    exclude = open_sigs()
-    ntasks = len(_tasks(tier))
-    res = core.parallel(work_shard, ntasks, seed, tier)
+    exclude = frozenset(open_sigs())
+    tasks = _tasks(tier, exclude)
+    res = core.parallel(work_shard, len(tasks), seed, tier)
     stats.merge(res)
     aborted = stats.extra.pop('exhaustive_aborted', 0)
-    n_pools = len(VARIANTS) * (1 if tier == 'quick' else 3)
+    n_units = sum(1 for t in tasks if t[0] == 'enum')
+    n_pools = 1 if tier == 'quick' else 3
     scope = (
         'all 3-operation sequences (shorter ones are their prefixes) over the alphabet {store_tile(a) with a fresh '
         'payload, store_tile(a) with the canonical single-colour payload [link variants], remove_tile(a), '
         'store_tiles(a,b) for address pairs with equal dimensions, reopen} on %d four-address pool(s) for each of the '
         '%d backend variants, full read-back of the pool through load_tile / is_cached / load_tiles after every '
-        'operation' % (1 if tier == 'quick' else 3, len(VARIANTS)))
+        'operation' % (n_pools, len(VARIANTS)))
+    if tier == 'thorough':
+        scope += '; all 4-operation sequences on the first pool of the 6 plain file layouts'
     if exclude:
         scope += ('; minus the constructs excluded while findings are open: ' + '; '.join(sorted(
             ['level-0 bulk read-back on ' + f for f, s in LEVEL0_SIGS.items() if s in exclude] +
             ['more than one dimension dict on ' + f for f, s in DIM_SIGS.items() if s in exclude])))
     stats.extra['exhaustive_scope'] = scope
-    stats.extra['exhaustive_pools_completed'] = int(stats.classes.get('enum-pool-completed', 0))
-    # complete only if no pool was cut short by a violation
-    stats.extra['exhaustive'] = bool(aborted == 0 and stats.classes.get('enum-pool-completed', 0) == n_pools)
+    stats.extra['exhaustive_units_completed'] = '%d of %d' % (stats.classes.get('enum-unit-completed', 0), n_units)
+    # complete only if no unit was cut short by a violation
+    stats.extra['exhaustive'] = bool(aborted == 0 and stats.classes.get('enum-unit-completed', 0) == n_units
+                                     and len(selected_variants()) == len(VARIANTS))
+    if len(selected_variants()) != len(VARIANTS):
+        stats.extra['restricted_to'] = [v['name'] for v in selected_variants()]
     stats.extra['backend_variants'] = len(VARIANTS)
 
 
